@@ -17,13 +17,17 @@ RULE = (
     "check_semi_singleton_entry_exists, get_all_semi_singleton_instances) over 8 classes in 5 arrangements (own "
     "metaclass each, two classes sharing one metaclass object, a subclass of a semi-singleton class, a custom "
     "hashfunc, a Vertex subclass), arguments from a hostile value set (-1/-2 equal hashes, 0/0.0/False, nested "
-    "tuples, keyword permutations, positional vs keyword).  A lock-step model {class -> {key -> instance}} judges "
+    "tuples, one tuple argument vs the same values spread over several arguments, keyword permutations, positional vs "
+    "keyword).  A lock-step model {class -> {key -> instance}} judges "
     "every call (identity, type, __init__ count, reported mappings).  Non-trivial = history with >=1 cache hit and "
     ">=2 classes touched; distinct = distinct op sequences."
 )
 
 VALUES = [-1, -2, 0, 0.0, False, 1, True, 1.0, 2, "a", "", "-1", ("t", 1), ("t", (1, 2)), None, 10 ** 18, -(10 ** 18),
-          "x" * 200, 3.5, (-1,), (-2,), 256, 257, 1000, "k" * 70000]
+          "x" * 200, 3.5, (-1,), (-2,), 256, 257, 1000, "k" * 70000,
+          # one tuple argument vs the same values spread over several arguments (and the empty tuple vs no argument)
+          (1, 2), (), (-1, -2), ((1, 2),)]
+I_ONE, I_TWO, I_T12, I_EMPTY, I_TM, I_TT12 = 5, 8, 25, 26, 27, 28
 KWSETS = [{}, {"a": 1}, {"a": 1, "b": 2}, {"b": 2, "a": 1}, {"a": [1, 2]}, {"a": {"k": 1}}, {"a": -1}, {"a": -2},
           {"a": None}, {"z": "s", "a": 1.0}, {"a": 1.0}, {"a": True},
           # nested containers: the documented key (json.dumps(..., sort_keys=True)) canonicalises nested dicts too
@@ -308,6 +312,8 @@ def gen_history(rng, nops):
     vals = rng.sample(range(len(VALUES)), rng.randint(2, 5))
     if rng.random() < 0.5:
         vals += [0, 1]  # -1 and -2
+    if rng.random() < 0.35:
+        vals += [I_ONE, I_TWO, I_T12, I_EMPTY]
     kws = rng.sample(range(len(KWSETS)), rng.randint(1, 3))
     if rng.random() < 0.7:
         kws.append(0)
@@ -353,6 +359,24 @@ def prelude():
                 {"op": "new", "c": b, "a": [], "k": 17, "i": 0},
                 {"op": "drop", "c": a, "a": [], "k": 13, "i": 0},
             ])
+        # C((1, 2)) is not C(1, 2), C(()) is not C(), C(((1, 2),)) is not C((1, 2)); each is itself again
+        out.append([
+            {"op": "new", "c": a, "a": [I_ONE, I_TWO], "k": 0, "i": 0},
+            {"op": "new", "c": a, "a": [I_T12], "k": 0, "i": 0},
+            {"op": "new", "c": a, "a": [], "k": 0, "i": 0},
+            {"op": "new", "c": a, "a": [I_EMPTY], "k": 0, "i": 0},
+            {"op": "new", "c": a, "a": [I_TT12], "k": 0, "i": 0},
+            {"op": "new", "c": b, "a": [I_T12], "k": 0, "i": 0},
+            {"op": "new", "c": a, "a": [0, 1], "k": 0, "i": 0},
+            {"op": "new", "c": a, "a": [I_TM], "k": 0, "i": 0},
+            {"op": "new", "c": a, "a": [I_T12], "k": 0, "i": 0},
+            {"op": "new", "c": a, "a": [I_ONE, I_TWO], "k": 0, "i": 0},
+            {"op": "check", "c": a, "a": [I_EMPTY], "k": 0, "i": 0},
+            {"op": "drop", "c": a, "a": [I_T12], "k": 0, "i": 0},
+            {"op": "check", "c": a, "a": [I_ONE, I_TWO], "k": 0, "i": 0},
+            {"op": "new", "c": a, "a": [I_EMPTY], "k": 1, "i": 0},
+            {"op": "new", "c": a, "a": [], "k": 1, "i": 0},
+        ])
     return out
 
 
